@@ -282,6 +282,56 @@ def _r163(ctx: Ctx) -> None:
                f'returned {v!r}', key=f'get_fit_status|{label}', facts=v)
 
 
+def _r164_pure_fit(ctx: Ctx) -> None:
+    """The fit helpers work on their own copies: fit_fss_params hands its best-fit parameters (reported as fss_params,
+    used for the data collapse) to get_fit_params as the starting point of every bootstrap refit, so a helper that
+    stores through an argument rewrites what is reported."""
+    from .c06 import effects
+    m = ctx.model
+    E = effects(m)
+    for fname in ('get_fit_params', 'fit_function'):
+        mi, fn = m.func('panqec.analysis', fname)
+        fi = E.by_node[fn]
+        bad = sorted(fi.params[i] for i in fi.mut_params if i < len(fi.params))
+        st = next((s_ for s_ in fi.stores if any(r.startswith('P') and r[1:].isdigit() for r in s_.roots)), None)
+        ctx.ob('R16.4', site_of(mi, st.node) if (bad and st is not None) else site_of(mi, fn),
+               f'{fname} does not store through its arguments', not bad,
+               f'{norm_stmt(st.node) if st is not None else ""} writes through the argument(s) {bad}: the caller\'s array '
+               f'(the best-fit parameters that fit_fss_params reports as fss_params) is modified by a bootstrap refit',
+               key=f'{fname}|pure', facts=bad)
+
+
+def _r162_labels(ctx: Ctx) -> None:
+    """calculate_thresholds separates the families it fits by the labels get_label makes of (class name, parameters):
+    two parameter sets that differ only deep inside a long container-valued parameter (explicit weights, nested
+    deformation keywords) must get different labels, or their data are fitted as one family."""
+    from .c03 import SymHooks
+    m = ctx.model
+    umi, fn = m.func('panqec.utils', 'get_label')
+    site = site_of(umi, fn)
+    pairs = [
+        ('nested keyword dictionary', 'PauliErrorModel',
+         {'r_x': 0.1, 'r_y': 0.1, 'r_z': 0.8, 'deformation_name': 'XZZX',
+          'deformation_kwargs': {'deformation_axis': 'z', 'period': 2, 'offset': 0}},
+         {'r_x': 0.1, 'r_y': 0.1, 'r_z': 0.8, 'deformation_name': 'XZZX',
+          'deformation_kwargs': {'deformation_axis': 'z', 'period': 2, 'offset': 1}}),
+        ('long list, last element', 'MatchingDecoder', {'weights': [1.0] * 19 + [2.0]}, {'weights': [1.0] * 19 + [3.0]}),
+        ('another parameter after a long one', 'D', {'a': list(range(30)), 'b': 1}, {'a': list(range(30)), 'b': 2}),
+        ('different class, same parameters', None, {'L_x': 3}, {'L_x': 3}),
+    ]
+    for what, name, p1, p2 in pairs:
+        labels = []
+        for nm, pr in ((name or 'A', p1), (name or 'B', p2)):
+            it = Interp(m, SymHooks())
+            outs = guard('R16.2', umi, fn)(lambda: it.explore(lambda: it.call_closure(Closure(fn, umi), [nm, pr], {}, fn)))
+            if len(outs) != 1 or outs[0].kind != 'return' or not isinstance(outs[0].value, str):
+                raise AnalysisError('R16.2', site, f'get_label not evaluated on {pr!r}: {outs!r}')
+            labels.append(outs[0].value)
+        ctx.ob('R16.2', site, f'get_label separates parameter sets that differ in a {what}', labels[0] != labels[1],
+               f'both are labelled {labels[0]!r}: calculate_thresholds groups by this label and fits the two families as one',
+               key=f'get_label|distinct[{what}]', facts=labels)
+
+
 def _fit_function_on_points(ctx: Ctx, m, ami, ff) -> None:
     import random
     from .c03 import SymHooks
@@ -590,7 +640,7 @@ def run(ctx: Ctx) -> None:
     ctx.rule('R16.2', 'rows reach the order-sensitive steps in canonical order; bootstrap seeded', floor=6)
     ctx.rule('R16.3', 'fit_status success only for a valid fit inside the data range; fit_found = (status == success)', floor=15)
     ctx.rule('R16.4', 'fit function and its siblings are the documented ansatz with parameters in fit order; fit and bootstrap read one table', floor=11)
-    ctx.rule('R16.5', 'the fit and its beta-resampling bootstrap read n_fail = n_trials - sum(success) and p_est = 1 - mean(success), each row with the code (distance) of its own group whatever the order of the input rows', floor=3)
+    ctx.rule('R16.5', 'the fit and its beta-resampling bootstrap read n_fail = n_trials - sum(success) and p_est = 1 - mean(success), each row with the code (distance) of its own group whatever the order of the input rows; every file of every supplied path is read once', floor=5)
     ctx.trust('scipy.optimize.curve_fit, numpy median/quantile, pandas sort semantics; sympy (python3-vt)')
     with ctx.part():
         _r161(ctx)
@@ -603,18 +653,24 @@ def run(ctx: Ctx) -> None:
     with ctx.part():
         _r162(ctx)
     with ctx.part():
+        _r162_labels(ctx)
+    with ctx.part():
         _r163(ctx)
     with ctx.part():
         _r164(ctx)
+    with ctx.part():
+        _r164_pure_fit(ctx)
     # the table the fit reads: failure counts and rates as defined for the pooled trials (shared with C15 R15.3)
     with ctx.part():
-        from .c15 import _frame_formulas, _r151_152
+        from .c15 import _frame_formulas, _r151_152, _r156, _r157
         sub = Ctx('C16', ctx.model, ctx.tier, ctx.seed)
-        for r_ in ('R15.1', 'R15.2', 'R15.3'):
+        for r_ in ('R15.1', 'R15.2', 'R15.3', 'R15.6'):
             sub.rule(r_, '', 0)
         _frame_formulas(sub)
         _r151_152(sub)
+        _r156(sub)
+        _r157(sub)
         for o in sub.obs:
             if o.key.split('|', 1)[1] in ('Analysis.aggregate|n_fail', 'calculate_total_error_rates|estimator',
-                                          'Analysis.aggregate|aligned'):
+                                          'Analysis.aggregate|aligned', 'find_files|once', 'read_files|read_entry'):
                 ctx.ob('R16.5', o.site, o.what, o.ok, o.detail, key=o.key.split('|', 1)[1], facts=o.facts)
